@@ -277,8 +277,23 @@ Definition known_f5 (k : str) (c : ccase) : bool :=
   let sent := sent_of (c_req c) in
   mem_str k (connection_listed sent) && is_empty (hvalues k (o_theaders (c_obs c))).
 
-(** Bit mask of the findings that explain the failing clauses; bit 128 is set
-    when some failing clause is explained by none of them. *)
+(** The patterns as predicates on a whole case: finding Fn is matched when it
+    explains a clause that fails on this case. *)
+Definition rh_explained (c : ccase) : bool := negb (v_rheaders (judge c)) && rheaders_explained c.
+Definition hd_explained (c : ccase) : bool := negb (v_headers (judge c)) && headers_explained c.
+Definition known_f1_hit (c : ccase) : bool := negb (v_path (judge c)) && known_f1 c.
+Definition known_f2 (c : ccase) : bool := rh_explained c && rheaders_uses_f2 c.
+Definition known_f3 (c : ccase) : bool :=
+  (rh_explained c && f3_cond c) || (negb (v_rbody (judge c)) && rbody_explained c)
+  || (hd_explained c && failing_has K_ae c).
+Definition known_f4 (c : ccase) : bool := hd_explained c && failing_has K_ua c.
+Definition known_f5_hit (c : ccase) : bool :=
+  (negb (v_rid (judge c)) && known_f5 K_rid c) || (negb (v_rstart (judge c)) && known_f5 K_rstart c).
+Definition known_f6 (c : ccase) : bool := rh_explained c && f6_cond c.
+
+(** Bit mask of the findings that explain the failing clauses (F1..F6 = 1, 2, 4,
+    8, 16, 32); bit 128 is set when some failing clause is explained by none of
+    them.  Second component: bit mask of the failing clauses. *)
 Definition diagnose (c : ccase) : N * N :=
   let v := judge c in
   let clause (ok : bool) (bit : N) := if ok then 0 else bit in
@@ -293,16 +308,9 @@ Definition diagnose (c : ccase) : N * N :=
     || un (v_rid v) (known_f5 K_rid c) || un (v_rstart v) (known_f5 K_rstart c)
     || negb (v_status v) || un (v_rheaders v) (rheaders_explained c) || un (v_rbody v) (rbody_explained c) in
   let used (cond : bool) (bit : N) := if cond then bit else 0 in
-  let rh := negb (v_rheaders v) && rheaders_explained c in
   let findings :=
-    used (negb (v_path v) && known_f1 c) 1
-    + used (rh && rheaders_uses_f2 c) 2
-    + used ((rh && f3_cond c) || (negb (v_rbody v) && rbody_explained c)
-            || (negb (v_headers v) && headers_explained c && failing_has K_ae c)) 4
-    + used (negb (v_headers v) && headers_explained c && failing_has K_ua c) 8
-    + used ((negb (v_rid v) && known_f5 K_rid c) || (negb (v_rstart v) && known_f5 K_rstart c)) 16
-    + used (rh && f6_cond c) 32
-    + used unexplained 128 in
+    used (known_f1_hit c) 1 + used (known_f2 c) 2 + used (known_f3 c) 4 + used (known_f4 c) 8
+    + used (known_f5_hit c) 16 + used (known_f6 c) 32 + used unexplained 128 in
   (findings, failed).
 
 (** (agrees with the model, satisfies the monitor) *)
